@@ -312,7 +312,8 @@ def validate_traces(specdir, module, trace_path, invariants, properties, scratch
                 bad = "TLC did not walk every record of shard %d (%d distinct states for %d records)" % (idx, r.distinct, n)
                 continue
             if r.distinct != 2 * n:
-                bad = "shard %d: %d distinct states for %d records" % (idx, r.distinct, n)
+                errs = [ln for ln in out.splitlines() if ln.startswith("Error:") or "Attempted" in ln][:6]
+                bad = "shard %d: %d distinct states for %d records\n%s" % (idx, r.distinct, n, "\n".join(errs))
                 continue
             total += n
             if vs:
